@@ -80,8 +80,18 @@ def make_problem(**kw):
 
 
 def reset_ids():
+    """Every id counter the tree has starts afresh, as in a new process (a tree that gives subclasses their own counters is
+    reset class by class; nothing is created on classes that have none)."""
+    import sys
     from artap.individual import Individual
     Individual.counter = 0
+    for modname in ("artap.algorithm_NSGAII", "artap.algorithm_genetic", "artap.algorithm_swarm"):
+        mod = sys.modules.get(modname)
+        if mod is None:
+            continue
+        for obj in vars(mod).values():
+            if isinstance(obj, type) and issubclass(obj, Individual) and obj is not Individual and "counter" in obj.__dict__:
+                obj.counter = 0
 
 
 def own_tempdir():
